@@ -338,6 +338,27 @@ def bam_occupancy_case(r):
     return cfg_line(r, r.choice([0, 2]), slots, r.choice(ORIGINS), False) + ' | ' + ' ; '.join(finish(ops))
 
 
+def own_bam_case(r):
+    """a sender's ISO-TP broadcast announcement (another PGN, never followed by data, or the same PGN) arrives between the first and the
+    last frame of a fast packet of the SAME sender to the same destination: a separate connection, the fast packet must still arrive"""
+    slots = r.choice([3, 5, 8])
+    src = r.choice([35, 36])
+    fp_pgn = r.choice(FAST_BCAST)
+    m = Msg(r, fp_pgn, src, 255, r.choice([13, 20, 34, 100]), True, r.randrange(8))
+    frames = [frame_op(*f) for f in m.frames]
+    cut = r.randint(1, len(frames) - 1)
+    ops = frames[:cut]
+    for _ in range(r.choice([1, 1, 2])):
+        pgn = r.choice([127489, 130816, 129029, fp_pgn])
+        nbytes = r.choice([20, 100])
+        d = [32, nbytes & 255, nbytes >> 8, (nbytes + 6) // 7, 255, pgn & 255, (pgn >> 8) & 255, (pgn >> 16) & 255]
+        ops += [frame_op(can_id(7, 60416, src, 255), d, 8)] + (['P'] if r.random() < 0.5 else [])
+    ops += frames[cut:]
+    other = Msg(r, r.choice(FAST_BCAST), 37, 255, 20, True, 1)
+    ops += [frame_op(*f) for f in other.frames]
+    return cfg_line(r, r.choice([0, 2]), slots, r.choice(ORIGINS), False) + ' | ' + ' ; '.join(finish(ops))
+
+
 def restart_case(r):
     """a sender starts a message again (new first frame, next sequence id) in the middle of the previous one"""
     pgn = r.choice(FAST_BCAST + FAST_ADDR)
